@@ -166,6 +166,21 @@ example :
       · exact ⟨by decide, by decide, by decide, by decide⟩
       · exact ⟨'B', "_2".toList, rfl, by decide, by decide⟩
 
+/-- **`[environment filter]` keeps the configuration order**: the filtered section is a sublist of
+the configured one (relative order preserved), a variable stays iff it is included (or there is no
+include list) and not excluded - so with `section_spec` the kept definitions are still applied in
+configuration order and a later one sees every earlier one that was kept. -/
+theorem filter_preserves_order (incl excl : List Str) (defs : List (Str × Str)) :
+    (filterEnv incl excl defs).Sublist defs ∧
+    ∀ d, d ∈ filterEnv incl excl defs ↔ d ∈ defs ∧ (incl = [] ∨ d.1 ∈ incl) ∧ d.1 ∉ excl := by
+  refine ⟨List.filter_sublist, ?_⟩
+  intro d
+  simp [filterEnv, List.mem_filter, List.isEmpty_iff]
+
+example : filterEnv ["LOG".toList, "RUN".toList] ["X".toList]
+    [("RUN".toList, "r".toList), ("X".toList, "x".toList), ("LOG".toList, "${RUN}/log".toList), ("Y".toList, "y".toList)]
+    = [("RUN".toList, "r".toList), ("LOG".toList, "${RUN}/log".toList)] := by decide
+
 /-- The full-strength statement for a quoting behaviour `esc`: in every section of
 expansion-free values — double quotes included, as the property's quantifier lists them — every
 variable is exported with exactly its configured value (the section applied in order). -/
